@@ -706,6 +706,10 @@ class Sum(Box):
     def __len__(self):
         return len(self.terms)
 
+    @property
+    def free_symbols(self):
+        return {x for arrow in self.terms for x in arrow.free_symbols}
+
     def then(self, *others):
         if len(others) != 1:
             return super().then(*others)
